@@ -98,3 +98,153 @@ Print Assumptions c05_decoder_constants.
 (** non-vacuity: a real LSF, six clean fragments in the order 3,1,0,2,5,4 - evaluated on the model *)
 Example c05_example_reassembly : fd_example_reassembly_ok = true.
 Proof. vm_compute. reflexivity. Qed.
+
+(* ====================================================================================================================
+   5. HISTORY level (LemmasFD_History.v): LICH reassembly over an ARBITRARY list of stream-sync frames.
+   Ghost state computed from the frames alone: [held k] (k <= 5) = the five bytes of the LAST frame so far whose four
+   Golay words unpacked and whose fragment number is k.  [assemble h] = the 30 bytes held if all six positions are held;
+   [complete h] = that, if it also passes the CRC. *)
+From M17 Require Import LemmasFD_History LemmasFD_HistoryInst.
+
+(** how one frame updates the ghost state: undecodable frames and fragment numbers 6, 7 do not touch it; a decodable
+    fragment n <= 5 replaces position n only *)
+Theorem c05_reassembly_history_ghost_update : forall (h : held_t) (fr : list Z) (lich : list N) (ok : bool),
+  unpack_lich fd_golay fr = (lich, ok) ->
+  (ok = false -> fd_held_upd h fr = h) /\
+  (ok = true -> 5 < frag_of lich -> fd_held_upd h fr = h) /\
+  (ok = true -> frag_of lich <= 5 ->
+     fd_held_upd h fr = (fun k => if Nat.eqb k (N.to_nat (frag_of lich)) then Some (firstn 5 lich) else h k)).
+Proof. exact fd_held_upd_cases. Qed.
+Print Assumptions c05_reassembly_history_ghost_update.
+
+Theorem c05_reassembly_history_ghost_defs :
+  (forall frs, fd_held_after held0 frs = fold_left fd_held_upd frs (fun _ => None)) /\
+  (forall h, assemble h = match h 0%nat, h 1%nat, h 2%nat, h 3%nat, h 4%nat, h 5%nat with
+                          | Some c0, Some c1, Some c2, Some c3, Some c4, Some c5 => Some (c0 ++ c1 ++ c2 ++ c3 ++ c4 ++ c5)
+                          | _, _, _, _, _, _ => None
+                          end) /\
+  (forall h, complete h = match assemble h with Some L => if crc30 L =? 0 then Some L else None | None => None end) /\
+  (forall hs, fd_frames_of hs = map (fun x => fd_deinterleave (fd_derandomize (snd (fst x)))) hs) /\
+  (forall hs, all_stream hs <-> Forall (fun x => fst (fst x) = SStream) hs).
+Proof. exact (conj (fun _ => eq_refl) (conj (fun _ => eq_refl) (conj (fun _ => eq_refl) (conj (fun _ => eq_refl) (fun _ => iff_refl _))))). Qed.
+Print Assumptions c05_reassembly_history_ghost_defs.
+
+(** the invariant "waiting for link setup, tracking h": link-setup mode; buffer 30 bytes; for k <= 5 bit k of the bitmap is
+    set iff position k is held, and slot k of the buffer then holds exactly those five bytes; what is held is not reportable *)
+Theorem c05_reassembly_history_invariant_def : forall (h : held_t) (s : fd_state),
+  fd_waiting h s <->
+  (d_mode scratch s = MLsf /\
+   (length (d_lsf scratch s) = 30%nat /\
+    forall k, (k <= 5)%nat ->
+      match h k with
+      | Some c => N.testbit (d_seg scratch s) (N.of_nat k) = true /\ slot k (d_lsf scratch s) = c
+      | None => N.testbit (d_seg scratch s) (N.of_nat k) = false
+      end) /\
+   complete h = None).
+Proof. exact (fun _ _ => iff_refl _). Qed.
+Print Assumptions c05_reassembly_history_invariant_def.
+
+Theorem c05_reassembly_history_start : fd_waiting held0 fd_init /\ (forall s, fd_waiting held0 (fd_reset s)) /\
+  forall s : fd_state, d_mode scratch s = MLsf /\ d_seg scratch s = 0 /\ length (d_lsf scratch s) = 30%nat <-> fd_fresh s.
+Proof. exact (conj (fresh_waiting scratch _ fd_init_fresh)
+               (conj (fun s => fresh_waiting scratch _ (fd_reset_fresh s)) (fun _ => iff_refl _))). Qed.
+Print Assumptions c05_reassembly_history_start.
+
+(** one stream-sync frame from ANY waiting state, EXACT: it reports iff - counting this frame - all six positions are held
+    and their concatenation passes the CRC; the report is that concatenation; otherwise it keeps waiting and tracking *)
+Theorem c05_reassembly_history_frame : forall (h : held_t) (s : fd_state) (fr : list Z) (lich : list N) (ok : bool),
+  fd_waiting h s -> unpack_lich fd_golay fr = (lich, ok) ->
+  let h' := fd_held_upd h fr in
+  let o := decode_lich scratch fd_golay s fr in
+  match ok, complete h' with
+  | false, _ =>
+      h' = h /\ res_of scratch o = RFail /\ cbs_of scratch o = [] /\ fd_waiting h' (st_of scratch o)
+  | true, Some L =>
+      res_of scratch o = ROk /\ d_mode scratch (st_of scratch o) = MStream /\ cost_of scratch o = Some 0%Z /\
+      cbs_of scratch o = [mkcb FLich lich 0; mkcb FLsf L 0] /\ d_seg scratch (st_of scratch o) = 0 /\
+      d_lsf scratch (st_of scratch o) = L
+  | true, None =>
+      res_of scratch o = RIncomplete /\ cbs_of scratch o = [mkcb FLich lich 0] /\ fd_waiting h' (st_of scratch o)
+  end.
+Proof. exact fd_lich_frame_exact. Qed.
+Print Assumptions c05_reassembly_history_frame.
+
+(** the invariant holds along EVERY history of stream-sync frames that leaves the decoder waiting, from any waiting state;
+    every call so far returned INCOMPLETE or FAIL with at most the LICH callback *)
+Theorem c05_reassembly_history_invariant : forall (hs : list (sync * list Z * bool)) (h : held_t) (s : fd_state),
+  fd_waiting h s -> all_stream hs -> fd_mode (snd (fd_run s hs)) = MLsf ->
+  fd_waiting (fd_held_after h (fd_frames_of hs)) (snd (fd_run s hs)) /\
+  Forall (fun ob : observation =>
+            fst (fst (fst ob)) = MLsf /\ (snd (fst (fst ob)) = RIncomplete \/ snd (fst (fst ob)) = RFail) /\
+            forall cb, In cb (snd ob) -> cb_type cb = FLich) (fst (fd_run s hs)).
+Proof. exact fd_lich_history_waiting. Qed.
+Print Assumptions c05_reassembly_history_invariant.
+
+(** THE HISTORY THEOREM: a fresh decoder (as constructed / after reset(): link-setup mode, bitmap 0), ANY list hs of
+    stream-sync frames after which it is still waiting, then one more stream-sync frame fr - exact outcome from the frames *)
+Theorem c05_reassembly_history_exact : forall (hs : list (sync * list Z * bool)) (s : fd_state) (fr : list Z) (r : bool)
+    (lich : list N) (ok : bool),
+  fd_fresh s -> all_stream hs -> fd_mode (snd (fd_run s hs)) = MLsf ->
+  unpack_lich fd_golay (fd_prep fr) = (lich, ok) ->
+  let h := fd_held_after held0 (fd_frames_of hs) in
+  let h' := fd_held_after held0 (fd_frames_of hs ++ [fd_prep fr]) in
+  let o := fd_step (snd (fd_run s hs)) SStream fr r in
+  fd_waiting h (snd (fd_run s hs)) /\ Forall fd_quiet_ob (fst (fd_run s hs)) /\
+  match ok, complete h' with
+  | false, _ =>
+      h' = h /\ res_of scratch o = RFail /\ cbs_of scratch o = [] /\ fd_waiting h' (st_of scratch o)
+  | true, Some L =>
+      res_of scratch o = ROk /\ d_mode scratch (st_of scratch o) = MStream /\ cost_of scratch o = Some 0%Z /\
+      cbs_of scratch o = [mkcb FLich lich 0; mkcb FLsf L 0] /\ d_seg scratch (st_of scratch o) = 0 /\
+      d_lsf scratch (st_of scratch o) = L
+  | true, None =>
+      res_of scratch o = RIncomplete /\ cbs_of scratch o = [mkcb FLich lich 0] /\ fd_waiting h' (st_of scratch o)
+  end.
+Proof. exact fd_lich_history_exact. Qed.
+Print Assumptions c05_reassembly_history_exact.
+
+(** both directions: OK is returned / an LSF callback is made exactly when the held fragments are complete and CRC-valid *)
+Theorem c05_reassembly_history_iff : forall (hs : list (sync * list Z * bool)) (s : fd_state) (fr : list Z) (r : bool),
+  fd_fresh s -> all_stream hs -> fd_mode (snd (fd_run s hs)) = MLsf ->
+  let h' := fd_held_after held0 (fd_frames_of hs ++ [fd_prep fr]) in
+  let o := fd_step (snd (fd_run s hs)) SStream fr r in
+  (res_of scratch o = ROk <-> complete h' <> None) /\
+  ((exists cb, In cb (cbs_of scratch o) /\ cb_type cb = FLsf) <-> complete h' <> None).
+Proof. exact fd_lich_history_reports_iff. Qed.
+Print Assumptions c05_reassembly_history_iff.
+
+(** C05 in its own words: if, when fr arrives, the fragments held for the six positions are the six chunks of ONE CRC-valid
+    L (received in any order, with repeats, interleaved with fragments of other LSFs overwritten since, with out-of-range
+    fragment numbers and undecodable frames in between), L is reported bit-exact by that very call *)
+Theorem c05_reassembly_history : forall (hs : list (sync * list Z * bool)) (s : fd_state) (fr : list Z) (r : bool) (L : list N),
+  fd_fresh s -> all_stream hs -> fd_mode (snd (fd_run s hs)) = MLsf ->
+  length L = 30%nat -> crc30 L = 0 ->
+  (forall k, (k <= 5)%nat -> fd_held_after held0 (fd_frames_of hs ++ [fd_prep fr]) k = Some (slot k L)) ->
+  let o := fd_step (snd (fd_run s hs)) SStream fr r in
+  res_of scratch o = ROk /\ d_mode scratch (st_of scratch o) = MStream /\ cost_of scratch o = Some 0%Z /\
+  cbs_of scratch o = [mkcb FLich (fst (unpack_lich fd_golay (fd_prep fr))) 0; mkcb FLsf L 0] /\
+  d_seg scratch (st_of scratch o) = 0 /\ d_lsf scratch (st_of scratch o) = L.
+Proof. exact fd_reassembly_history. Qed.
+Print Assumptions c05_reassembly_history.
+
+(** conversely, whatever is reported IS the concatenation of the six held fragments and passes the CRC: a mixture of
+    fragments of different LSFs is reported only if that very mixture passes the CRC *)
+Theorem c05_reassembly_history_report_is_held : forall (hs : list (sync * list Z * bool)) (s : fd_state) (fr : list Z) (r : bool)
+    (cb : callback),
+  fd_fresh s -> all_stream hs -> fd_mode (snd (fd_run s hs)) = MLsf ->
+  In cb (cbs_of scratch (fd_step (snd (fd_run s hs)) SStream fr r)) -> cb_type cb = FLsf ->
+  assemble (fd_held_after held0 (fd_frames_of hs ++ [fd_prep fr])) = Some (cb_bytes cb) /\ crc30 (cb_bytes cb) = 0.
+Proof. exact fd_report_is_held. Qed.
+Print Assumptions c05_reassembly_history_report_is_held.
+
+(** non-vacuity: A3 A1 B0 garbage A2 #6 B5 A5 A4 A3 then A0 (A, B two real LSFs; after A4 the full mixture B0+A1..A5 fails
+    the CRC and is not reported): all hypotheses of c05_reassembly_history hold, and the model reports A *)
+Example c05_example_reassembly_history : fd_example_history_ok = true.
+Proof. vm_compute. reflexivity. Qed.
+
+Example c05_example_reassembly_history_applies :
+  let o := fd_step (snd (fd_run fd_init ex_history)) SStream ex_last true in
+  res_of scratch o = ROk /\ d_mode scratch (st_of scratch o) = MStream /\ cost_of scratch o = Some 0%Z /\
+  cbs_of scratch o = [mkcb FLich (fst (unpack_lich fd_golay (fd_prep ex_last))) 0; mkcb FLsf ex_lsf 0] /\
+  d_seg scratch (st_of scratch o) = 0 /\ d_lsf scratch (st_of scratch o) = ex_lsf.
+Proof. exact fd_example_history_applies. Qed.
